@@ -5,6 +5,7 @@ Model: PcModel/Iter.lean (iterator.cpp, IteratorHelper.cpp, iterator.hpp, PrimeG
 ParallelSieve.cpp, PrimeSieve.cpp, StorePrimes.hpp). Proofs: PcProofs/Iter*.lean.
 -/
 import PcProofs.IterRefine2
+import PcProofs.IterPar
 
 namespace Pc.C18
 open Pc.It
@@ -115,6 +116,25 @@ example : (init 100 5).mem.gen = none := rfl
 example : ((run (refEnv ⟨fun _ => 0, fun _ => 0, fun _ => 0, fun _ => 0⟩ (fun _ => 1)) (init 10 0) [.prev, .prev, .next]).1) = [7, 5, 7] := by
   decide +kernel
 
+/-- `parallel_count_total`, interval part (`_partial`: the sum of the per-interval counts is not yet stated; it follows from
+    these three facts and additivity of counting over adjacent intervals). For every thread distance `td >= 1` and every
+    `[start, stop]` with `stop < 2^64-1`, the tasks of `ParallelSieve::sieve()` tile the interval: the first starts at `start`,
+    task `i+1` starts exactly one above the end of task `i`, and the task that reaches `stop - 32` ends at `stop`
+    (for EVERY thread count: `td` and the number of tasks are arbitrary here) -/
+theorem parallel_intervals_partial (a b td : ℕ) (htd : 1 ≤ td) (hb : b < umax) (hab : a ≤ b) :
+    (threadInterval a b td 0).1 = a ∧
+    (∀ i, a + td * (i + 1) ≤ b → (threadInterval a b td (i + 1)).1 = (threadInterval a b td i).2 + 1) ∧
+    (∀ i, a + td * i ≤ b → b ≤ a + td * (i + 1) + 32 → (threadInterval a b td i).2 = b) :=
+  ⟨threadInterval_first a b td (by omega), fun i hi => threadInterval_contiguous a b td i htd hb hi,
+   fun i h1 h2 => threadInterval_last a b td i (by omega) h1 h2⟩
+
+/-- task boundaries that are not clamped to `stop` sit on `2 (mod 30)` within `[n + 3, n + 32]` (sieve bytes start at `30k + 7`) -/
+theorem align_boundary (stop n : ℕ) (h : checkedAdd n 32 < stop) (hs : stop ≤ umax) :
+    align stop n % 30 = 2 ∧ n + 3 ≤ align stop n ∧ align stop n ≤ n + 32 := align_mod stop n h hs
+
+example : (threadInterval 0 100000000 10000020 1) = (10000053, 20000072) := by decide
+example : checkedAdd 10000020 32 < 100000000 := by decide
+
 end Pc.C18
 
 #print axioms Pc.C18.checkedAdd_saturates
@@ -129,3 +149,5 @@ end Pc.C18
 #print axioms Pc.C18.direction_change_fwd_bwd
 #print axioms Pc.C18.direction_change_bwd_fwd
 #print axioms Pc.C18.prev_first_partial
+#print axioms Pc.C18.parallel_intervals_partial
+#print axioms Pc.C18.align_boundary
